@@ -845,6 +845,8 @@ def _direct_connect_outputs_pass(block):
         dst_net = dst_nets[dest_wire][0]
         if dst_net.op != 'w' or not isinstance(dst_net.dests[0], Output):
             continue
+        if len(dst_net.dests[0]) != len(dest_wire):
+            continue  # that 'w' net truncates, so it is not redundant
 
         new_net = LogicNet(
             op=net.op,
